@@ -40,6 +40,7 @@ def joinWith (sep : String) (xs : List String) : String := sep.intercalate xs
 
 def dumpVal : Val → String
   | .str v => "str:" ++ showBytes v
+  | .strNil => "str:-"
   | .list l => s!"list:{l.length}:" ++ joinWith "," (l.items.map showBytes)
   | .hash h => "hash:" ++ joinWith "," (h.map fun (k, v) => showBytes k ++ "=" ++ showBytes v)
   | .set s => "set:" ++ joinWith "," (s.map fun (k, _) => showBytes k)
